@@ -10,7 +10,7 @@
 
     Kept apart from the models the proofs are about so that the proofs do not depend on these files. *)
 From Coq Require Import NArith ZArith List Bool.
-From Carquet Require Import Base.Res Gen.Enums_gen Thrift.ThriftModel Thrift.ParquetMetaDesc Thrift.ParquetMetaModel
+From Carquet Require Import Base.Res Gen.Enums_gen Gen.Writer_gen Thrift.ThriftModel Thrift.ParquetMetaDesc Thrift.ParquetMetaModel
      Stats.Order Stats.StatsBuilderModel Comp.SnappyModel Comp.Lz4Model
      Writer.TableSpec Writer.PageWriterModel Writer.FileWriterModel.
 Import ListNotations.
@@ -66,7 +66,7 @@ Definition I (n : N) : mval := MInt (Z.of_N n).
 
 (** parquet_schema_element_t *)
 Definition root_elem (ncols : nat) : mval :=
-  MRec [ MInt 0; MInt 0; MInt 0; MInt 0; MInt 0; MBytes (Some [115;99;104;101;109;97]%N) (* "schema" *);
+  MRec [ MInt 0; MInt 0; MInt 0; MInt 0; MInt 0; MBytes (Some Writer_ROOT_NAME) (* "schema" *);
          MInt (Z.of_nat ncols); MInt 0; MInt 0; MInt 0; MInt 0; MInt 0; MInt 0; MInt 0; MRec (zeros 7) ].
 Definition leaf_elem (c : column) : mval :=
   MRec [ MInt 1; MInt (type_code (c_type c)); I (c_tlen c); MInt 1; MInt (rep_code (c_rep c));
